@@ -486,7 +486,7 @@ func genC01(t *rapid.T) model.Case {
 		if kind != "est" && rapid.IntRange(0, 7).Draw(t, "flood") == 0 {
 			// the same datagram many times over (a peer gone wild, or a replaying middle box): whatever a single
 			// copy costs must not add up to a stuck association (full queue, exhausted table)
-			rop.N = rapid.SampledFrom([]int{101, 130, 260}).Draw(t, "copies")
+			rop.N = rapid.SampledFrom([]int{130, 160, 260}).Draw(t, "copies") // well above 100: a few copies may be dropped while the connection object is created
 		}
 		ops = append(ops, rop)
 		descs = append(descs, d)
